@@ -24,7 +24,7 @@ def run(ctx):
         rule=("one case = one engine run (real provider of one format with a `headers` option list, preload on/off + real http gun, "
               "1-3 pools in the run each with its own target on another port of the same host (127.0.0.1 or localhost), targets up or down "
               "while the configuration is decoded, 1% of the cases with a 1.3-1.6 s pause between the requests (const schedule, run concurrently), "
-              "1-4 instances per pool, plain or TLS target answering with a generated status and body size 0 B..1.2 MB, keep-alive on/off); `tr` cases: the eight TransportConfig fields read back from the transport NewTransport builds; "
+              "1-4 instances per pool, plain or TLS target answering with a generated status and body size 0 B..1.2 MB, keep-alive on/off); `tr` cases: every field of TransportConfig / DialerConfig (reflection) read back from the built http.Transport / net.Dialer; files are delivered 1-3 times (passes), format jsonarr = jsonline entries as one JSON array, target answers after 0 or 15 ms; "
               "non-trivial: every tr case; wire cases where the configuration defines headers and either some key "
               "(canonical form) is defined both by the configuration and by an entry/in-file header, or the file has more "
               "than one item; distinct = distinct case lines. Header comparison: map sorted by canonical key, value lists in "
